@@ -198,6 +198,7 @@ fn check_tree(case: &TreeCase) -> Verdict {
 
 fn check_seq(case: &SeqCase) -> Verdict {
     let mut acc = Acc::default();
+
     if case.cap == 0 || case.cap as usize > chan::MAX_CAP {
         return acc.into_verdict(false);
     }
@@ -208,6 +209,11 @@ fn check_seq(case: &SeqCase) -> Verdict {
     };
     let out = chan::run(cfg, &case.ops, true);
     acc.add(&out.stats);
+    let mut bytes = vec![case.cap, case.budget, case.repoll as u8];
+    for op in &case.ops {
+        bytes.extend_from_slice(&op.code());
+    }
+    let fp = vcommon::fnv1a(&bytes);
     if let chan::End::Failed(i, fails) = out.end {
         for (sig, msg) in fails {
             let detail = format!(
@@ -223,7 +229,9 @@ fn check_seq(case: &SeqCase) -> Verdict {
             acc.fail(sig, i + 1, detail);
         }
     }
-    acc.into_verdict(false)
+    let mut v = acc.into_verdict(false);
+    v.fingerprint = Some(fp);
+    v
 }
 
 /// (capacity, budget, depth) configurations, smallest first.
@@ -254,53 +262,59 @@ fn tree_cases(configs: &[(u8, u8, u8)], prefix_len: usize, worker: usize, worker
     out.into_iter()
 }
 
-fn size_strategy(cap: u8) -> impl Strategy<Value = u8> {
-    prop_oneof![
-        1 => Just(0u8),
-        3 => Just(1u8),
-        2 => Just(2u8),
-        1 => Just(cap.saturating_sub(1)),
-        3 => Just(cap),
-        2 => Just(cap + 1),
-        3 => 0..=cap + 1,
-    ]
+/// Random sequences are decoded from raw integers (cheap to generate, shrink towards the simplest
+/// operation): low byte selects the operation by weight, the next bytes its arguments.
+fn size_of(a: u8, cap: u8) -> u8 {
+    match a {
+        0..=19 => 0,
+        20..=69 => 1,
+        70..=99 => 2,
+        100..=114 => cap.saturating_sub(1),
+        115..=164 => cap,
+        165..=194 => cap + 1,
+        _ => a % (cap + 2),
+    }
 }
 
-fn body_op(cap: u8) -> impl Strategy<Value = Op> {
-    prop_oneof![
-        30 => size_strategy(cap).prop_map(Op::W),
-        28 => size_strategy(cap).prop_map(Op::R),
-        4 => (1u8..=8, size_strategy(cap)).prop_map(|(p, n)| Op::Rp(p, n)),
-        3 => Just(Op::F),
-        4 => prop_oneof![3 => 1u8..=6, 1 => Just(64u8)].prop_map(Op::B),
-        2 => Just(Op::Kw),
-        2 => Just(Op::Kr),
-    ]
+fn decode_op(raw: u32, cap: u8) -> Op {
+    let sel = (raw & 0xff) as u8;
+    let a = ((raw >> 8) & 0xff) as u8;
+    let b = ((raw >> 16) & 0xff) as u8;
+    match sel {
+        0..=99 => Op::W(size_of(a, cap)),
+        100..=194 => Op::R(size_of(a, cap)),
+        195..=208 => Op::Rp(1 + b % 8, size_of(a, cap)),
+        209..=218 => Op::F,
+        219..=232 => Op::B(if a < 200 { 1 + a % 6 } else { 64 }),
+        233..=243 => Op::Kw,
+        _ => Op::Kr,
+    }
 }
 
 fn seq_strategy(max_len: usize) -> impl Strategy<Value = SeqCase> {
     let cap = prop_oneof![3 => 1u8..=4, 3 => 5u8..=16, 2 => 17u8..=64];
     let budget = prop_oneof![4 => Just(64u8), 5 => 2u8..=5, 1 => Just(1u8), 2 => 6u8..=20];
     let repoll = prop_oneof![3 => Just(true), 1 => Just(false)];
-    (cap, budget, repoll).prop_flat_map(move |(cap, budget, repoll)| {
-        let closer = prop_oneof![Just(Op::S), Just(Op::DW), Just(Op::DR)];
-        (
-            proptest::collection::vec(body_op(cap), 0..=max_len),
-            proptest::collection::vec((any::<u16>(), closer), 0..=3),
-        )
-            .prop_map(move |(mut ops, closers)| {
-                for (pos, c) in closers {
-                    let at = pick_index(pos, ops.len() + 1);
-                    ops.insert(at, c);
-                }
-                SeqCase {
-                    cap,
-                    budget,
-                    repoll,
-                    ops,
-                }
-            })
-    })
+    (
+        cap,
+        budget,
+        repoll,
+        proptest::collection::vec(any::<u32>(), 0..=max_len),
+        proptest::collection::vec((any::<u16>(), 0u8..3), 0..=3),
+    )
+        .prop_map(|(cap, budget, repoll, raw, closers)| {
+            let mut ops: Vec<Op> = raw.into_iter().map(|r| decode_op(r, cap)).collect();
+            for (pos, c) in closers {
+                let at = pick_index(pos, ops.len() + 1);
+                ops.insert(at, [Op::S, Op::DW, Op::DR][c as usize]);
+            }
+            SeqCase {
+                cap,
+                budget,
+                repoll,
+                ops,
+            }
+        })
 }
 
 fn main() {
@@ -326,7 +340,7 @@ fn main() {
     ctx.assume("short reads / partial writes are allowed (at least one byte when possible); a write accepted after the writer's own shutdown is tolerated by the oracle (the implementation rejects it)");
 
     // (capacity, budget, depth)
-    let (d_gen, d_small) = ctx.pick((8u8, 8u8), (10u8, 10u8));
+    let (d_gen, d_small) = ctx.pick((8u8, 8u8), (10u8, 9u8));
     let mut configs = vec![];
     for cap in 1u8..=4 {
         configs.push((cap, 64u8, d_gen));
@@ -337,9 +351,9 @@ fn main() {
         }
     }
     ctx.enumerate("enum", |w, ws| tree_cases(&configs, 3, w, ws), check_tree);
-    let n = ctx.pick(1_500_000, 60_000_000);
+    let n = ctx.pick(4_000_000, 40_000_000);
     ctx.prop("random", n, || seq_strategy(200), check_seq);
-    let n = ctx.pick(6_000, 300_000);
+    let n = ctx.pick(12_000, 600_000);
     ctx.prop("threads", n, threads::strategy, threads::check);
     ctx.finish();
 }
